@@ -86,6 +86,11 @@ var sessCorpus = []struct {
 	{"i:0:e:r,i:1:e:r", "c0,o0,pi0r,g,c1,o1,s1,s0,h,k0,pi1r,g,h,k1"},
 	{"i:0:e:r,m:1:c:e", "c0,o0,s0,pi0r,g,h,c1,o1,s1,k0,pm1e,g,h,k1"},
 	{"i:0:e:r,i:1:e:r", "c0,o0,s0,pi0r,g,c1,x1,o1,s1,h,k0"},
+	// round F (seeded C06-22): the context of a call ends AFTER the call returned its response
+	// and BEFORE the caller closed it: the serve loop keeps waiting for the close
+	{"i:0:e:r", "c0,o0,s0,pi0r,g,h,x0,k0,pm9n"},
+	{"m:0:c:e", "c0,o0,s0,pm0e,g,h,x0,d0,k0,pi9r"},
+	{"p:0:e:r,i:1:e:r", "c0,o0,c1,o1,s0,s1,pp0e,g,h,x0,x1,k0,pi1r,g"},
 }
 
 // every stanza kind x type (result, error; normal, get, set) x id (two requester ids and an
